@@ -8,6 +8,7 @@ Code -> spec: random larger modules (inheritance, up to 4 classes) and richer co
 for real and every recorded run is judged by Trace_Argv.
 """
 import json
+import os
 import random
 
 from harness import common, tlc, trace
@@ -185,6 +186,35 @@ def run(chk):
         chk.violation({'kind': 'argv-run', 'clause': sorted(rej['bad'])[0], 'option': '-k'},
                       dict(kdetail[e['tid']], failed_clauses=rej['bad'], expected_module_after_k=e['module'],
                            how='ReferenceTestCase.main(module=<generated>, argv=[... -k PATTERN ...]); judged by spec/Trace_Argv.tla'))
+    # 4c. the entry point people use: the module run as a script that ends in ReferenceTestCase.main() (no module= argument),
+    #     with class names on the command line, and with a load_tests() hook that adds a test instance itself
+    sevents, sdetail = [], {}
+    sroot = common.subdir('c19_scripts')
+    for tid in range(240 if thorough else 48):
+        structure = rich_module(rnd)
+        tagsp = rnd.choice([None, '-1', '--tagged', '-0', '--istagged', '-0', '--istagged'])
+        eff = effective(structure)
+        hook = tid % 3 == 0
+        cands = [c['cls'] for c in eff if c['tests']]
+        names = rnd.sample(cands, rnd.randint(1, min(2, len(cands)))) if cands and not hook and rnd.random() < 0.6 else []
+        argv = ['prog'] + ([tagsp] if tagsp else []) + names
+        got = rl.run_tdda_script(os.path.join(sroot, 's%d' % tid), structure, argv, hook=hook)
+        module = [dict(c) for c in eff]
+        if hook:
+            module.append({'cls': 'ScenarioTest', 'ctag': True, 'tests': [{'name': 'check', 'mtag': False}]})
+        sevents.append({'tid': tid, 'ev': 'PyRun', 'module': module, 'names': names, 'tagged': tagsp in ('-1', '--tagged'),
+                        'check': tagsp in ('-0', '--istagged'), 'executed': [list(x) for x in got['executed']], 'listed': got['listed'],
+                        'error': got['error'] or 'none'})
+        sdetail[tid] = {'argv': argv, 'module': structure, 'load_tests_hook': hook, 'observed': got}
+        chk.count_case(('script', module_key(eff), tuple(argv), hook), nontrivial=bool(got['executed'] or got['listed']))
+    ress, rejs = trace.validate('Trace_Argv', 'Trace_Argv.cfg', sevents, name='Trace_Argv_script')
+    chk.add_tlc(ress)
+    chk.coverage['traces_validated_against_impl'] += len(sevents)
+    for rej in rejs:
+        e = sevents[rej['line'] - 1]
+        chk.violation({'kind': 'argv-run', 'clause': sorted(rej['bad'])[0], 'entry': 'script'},
+                      dict(sdetail[e['tid']], failed_clauses=rej['bad'],
+                           how='python <generated script ending in ReferenceTestCase.main()> <argv>; judged by spec/Trace_Argv.tla'))
     # 5. the pytest entry point: same specification, real `python -m pytest` runs --------------------------------
     pytest_runs(chk, rnd, r2.rows, 140 if not thorough else 1200, 80 if not thorough else 600)
     chk.coverage['rule'] = (
